@@ -210,7 +210,55 @@ def str_lt(a, b):
         # token strings are ordered by their ids (the replay renders ids zero-padded, so the byte order of
         # the concrete strings is the id order)
         return a.id < b.id
+    if isinstance(a, TokStr) and b == '':
+        return False                       # nothing sorts before the empty string
+    if a == '' and isinstance(b, TokStr):
+        return b.id != intern_tok('')      # "" < every non-empty string
     raise Unsupported(f'string order {a!r} vs {b!r}')
+
+
+I64_MAX = 2 ** 63 - 1
+NUM_REPRESENTATIVES = [0, 7, -1, I64_MAX, I64_MAX + 1, -I64_MAX - 1, -I64_MAX - 2, 8210266876799, 8210266876800, -8334601228800,
+                       -8334601228801, 10 ** 29]
+
+
+def concretize_numeric(I, s, meth):
+    """character-level access to the decimal rendering of a symbolic integer: the path is continued with representative
+    concrete values (sign, zero, i64 and chrono range boundaries on both sides, a 30-digit value); the remaining values are
+    not examined character by character (cover note 'numeric text examined for representative values only')"""
+    from ..explore import PathAbort
+    terms = []
+    if isinstance(s, NumStr) and is_sym(s.v):
+        terms = [s.v]
+    elif isinstance(s, SegStr):
+        terms = [x[1] for x in s.segs if isinstance(x, tuple) and x[0] == 'num' and is_sym(x[1])]
+        if any(isinstance(x, tuple) and x[0] != 'num' and is_sym(x[1]) for x in s.segs):
+            raise Unsupported(f'str::{meth} on symbolic string')
+    else:
+        raise Unsupported(f'str::{meth} on symbolic string')
+    vals = {}
+    for t in terms:
+        for r in NUM_REPRESENTATIVES:
+            if I.ctx.branch(t == r):
+                vals[id(t)] = r
+                break
+        else:
+            I.ctx.cover('numeric text examined for representative values only')
+            raise PathAbort()
+    if isinstance(s, NumStr):
+        return str(vals.get(id(s.v), s.v))
+    out = ''
+    for x in s.segs:
+        if isinstance(x, str):
+            out += x
+        elif x[0] == 'num':
+            out += str(vals.get(id(x[1]), x[1]))
+        elif x[0] == 'uuid':
+            out += '%032x' % x[1]
+        else:
+            h = '%032x' % x[1]
+            out += '-'.join([h[:8], h[8:12], h[12:16], h[16:20], h[20:]])
+    return out
 
 
 def str_len(I, v):
@@ -577,7 +625,7 @@ def m_str_method(I, path, args):
     if meth in ('trim', 'trim_start', 'trim_end', 'to_lowercase', 'to_uppercase', 'to_ascii_lowercase', 'to_ascii_uppercase',
                 'chars', 'bytes', 'split', 'splitn', 'find', 'rfind', 'split_once', 'rsplit_once', 'char_indices', 'lines', 'repeat', 'replace'):
         if not isinstance(s, str):
-            raise Unsupported(f'str::{meth} on symbolic string')
+            s = concretize_numeric(I, s, meth)
         if meth == 'trim':
             return s.strip()
         if meth == 'trim_start':
@@ -876,7 +924,11 @@ def m_string_write(I, path, args):
 
 @R.model(r'^char::methods::<impl char>::(is_ascii_digit|is_ascii|is_whitespace|is_alphanumeric|is_ascii_alphanumeric|'
          r'is_alphabetic|is_ascii_alphabetic|is_ascii_hexdigit|is_digit|to_ascii_lowercase|to_ascii_uppercase|len_utf8|is_ascii_punctuation|is_control|is_uppercase|is_lowercase|is_numeric|is_ascii_uppercase|is_ascii_lowercase)$',
-         r'^char::methods::\w+$')
+         r'^char::methods::\w+$',
+         r'^(core::)?num::<impl u8>::(is_ascii_digit|is_ascii|is_ascii_alphanumeric|is_ascii_alphabetic|is_ascii_hexdigit|'
+         r'to_ascii_lowercase|to_ascii_uppercase|is_ascii_punctuation|is_ascii_uppercase|is_ascii_lowercase|is_ascii_whitespace|is_ascii_control|is_ascii_graphic|eq_ignore_ascii_case)$',
+         r'^char::methods::<impl char>::(is_ascii_whitespace|is_ascii_control|is_ascii_graphic|eq_ignore_ascii_case|to_digit)$',
+         r'^(core::)?num::(is_ascii_\w+|is_ascii|to_ascii_lowercase|to_ascii_uppercase|eq_ignore_ascii_case)$')
 def m_char(I, path, args):
     meth = strip_generics(path).split('::')[-1]
     ch = deref1(args[0])
@@ -885,6 +937,20 @@ def m_char(I, path, args):
     c = chr(ch)
     if meth == 'is_ascii_digit':
         return c in '0123456789'
+    if meth == 'is_ascii_whitespace':
+        return c in ' \t\n\x0c\r'
+    if meth == 'is_ascii_control':
+        return ch < 32 or ch == 127
+    if meth == 'is_ascii_graphic':
+        return 33 <= ch <= 126
+    if meth == 'eq_ignore_ascii_case':
+        o = deref1(args[1])
+        if not isinstance(o, int):
+            raise Unsupported('char method on symbolic char')
+        return c.lower() == chr(o).lower() if ch < 128 and o < 128 else ch == o
+    if meth == 'to_digit':
+        d = '0123456789abcdefghijklmnopqrstuvwxyz'.find(c.lower())
+        return Some(d) if 0 <= d < args[1] else NONE()
     if meth == 'is_ascii_uppercase':
         return 'A' <= c <= 'Z'
     if meth == 'is_ascii_lowercase':
